@@ -4,6 +4,7 @@
 mod common;
 mod rng;
 mod c11;
+mod c20;
 
 use std::io::{BufWriter, Write};
 
@@ -23,6 +24,7 @@ fn main() {
             let seed: u64 = args.get(4).and_then(|s| s.parse().ok()).unwrap_or(1);
             match prop {
                 "C11" => c11::gen(tier, seed, &mut out),
+                "C20" => c20::gen(tier, seed, &mut out),
                 _ => {
                     eprintln!("unknown property {}", prop);
                     std::process::exit(2);
@@ -56,6 +58,16 @@ fn replay_one(toks: &[&str]) -> String {
             let fmt: u32 = toks[1].parse().unwrap();
             let cs: Vec<String> = toks[2][1..].split(',').map(|s| s.to_string()).collect();
             c11::observe(fmt, &cs)
+        }
+        "C20" => {
+            if toks[1] == "K" {
+                let types = if toks[2] == "-" { "" } else { toks[2] };
+                c20::observe_path(types, &c20::parse_coords(toks[3]))
+            } else {
+                let v: Vec<f64> =
+                    toks[2..10].iter().map(|t| f64::from_bits(u64::from_str_radix(t, 16).unwrap())).collect();
+                c20::observe_transform(&v)
+            }
         }
         other => format!("unknown-model {}", other),
     }
